@@ -670,7 +670,7 @@ theorem C13_revolved_shapes (X Z H A B W r R : K) (harc : A ^ 2 + B ^ 2 = W ^ 2)
 /-! ## three-point arc -/
 
 /-- **Three-point arc: geometry.**  (The branch decision of the code is tied to the sign hypothesis
-of part 2 in `C13_three_points_branch_partial` / `C13_three_points_end`.)
+of part 2 in `C13_three_points_branch` / `C13_three_points_end`.)
 `circle_segment_from_three_points` is
 `circle_segment(θ, r, centre, w2, x0 − centre)` with the travel normal `w2 = (x0−x2)×(x1−x2)` (part 4).
 1. The centre returned by the linear solve of the model (`threePointCenter`, the system the code
@@ -723,8 +723,8 @@ theorem C13_three_points_geometry :
         (0 ≤ s → 0 < s1 ∧ c < c1) ∧ (s < 0 → 0 ≤ s1 ∨ c1 < c)) ∧
     (∀ (k : Consts K) (tol : K) (x0 x1 x2 : List K) (radius thS : K) (arcS : ArcAux K) (thL : K)
         (arcL : ArcAux K) (aW : NAux K) (lamW : K) (d : ThreePt K),
-        threePointData tol x0 x1 x2 = .ok d →
-        threePoints k tol x0 x1 x2 radius thS arcS thL arcL aW lamW =
+        threePointDataWith true tol x0 x1 x2 = .ok d →
+        threePointsWith true k tol x0 x1 x2 radius thS arcS thL arcL aW lamW =
           (circleSegment k (if d.keep then thS else thL) radius d.center d.w2 d.v0
               (if d.keep then arcS else arcL) aW lamW).map
             (fun res => res.setDimension (max x0.length (max x1.length x2.length)))) := by
@@ -741,8 +741,7 @@ theorem C13_three_points_geometry :
       exact absurd hLpos (not_lt.mpr this)
     exact between_of_orient c s c1 s1 hcs hcs1 hpos
   · intro k tol x0 x1 x2 radius thS arcS thL arcL aW lamW d hd
-    have hd' : threePointDataWith false tol x0 x1 x2 = .ok d := hd
-    simp only [threePoints, threePointsWith, hd', bind, Except.bind, pure, Except.pure]
+    simp only [threePointsWith, hd, bind, Except.bind, pure, Except.pure]
     by_cases hk : d.keep <;> simp [hk, Except.map]
   · intro a1 a2 a3 b1 b2 b3 c1 c2 c3 x y z h
     simp only [threePointCenter, sub3, cross3, List.zipWith, List.map, dot3, List.sum_cons, List.sum_nil] at h
@@ -878,6 +877,123 @@ theorem C13_eval_arc (r cd sd theta : K) (n : ℕ) (hn : 0 < n) (hθ : 0 < theta
 example : ∃ (cd sd theta : ℚ) (n : ℕ) (t : ℚ), 0 < n ∧ 0 < theta ∧ cd ^ 2 + sd ^ 2 = 1 ∧ 0 < cd ∧
     Side.right.mem 0 theta t := ⟨4 / 5, 3 / 5, 1, 1, 1 / 2, by norm_num, by norm_num, by norm_num, by norm_num,
       by constructor <;> norm_num⟩
+
+/-- **`circle_segment` with `θ < 0`: every evaluated point is on the circle.**  The code reverses the
+control net and flips the knot vector (domain `[θ, 0]`).  For every parameter `t` of the domain the
+homogeneous point of the factory's basis and (reversed) net has `W > 0`, `X² + Y² = r²W²`; at the
+knots `t_k = k·θ/n` (`k = 0 … n`) the point is `r(cos, sin)(2k·dt)` — the angle `t_k ≤ 0`, clockwise
+from the x-axis — in particular parameter `0` (the end of the domain) is on the positive x-axis. -/
+theorem C13_eval_arc_neg (r cd sd theta : K) (n : ℕ) (hn : 0 < n) (hθ : theta < 0)
+    (hd : cd ^ 2 + sd ^ 2 = 1) (hcd : 0 < cd) (s : Side) (t : K) (ht : s.mem theta 0 t) :
+    let τ := ({ order := 3, knots := (arcKnots theta n).reverse.toArray, periodic := -1 } : Basis K).kn
+    let X := splineVal s τ 2 (2 * n + 1) (netComp (arcNet r cd sd n).reverse 0) t
+    let Y := splineVal s τ 2 (2 * n + 1) (netComp (arcNet r cd sd n).reverse 1) t
+    let W := splineVal s τ 2 (2 * n + 1) (netComp (arcNet r cd sd n).reverse 2) t
+    0 < W ∧ X ^ 2 + Y ^ 2 = r ^ 2 * W ^ 2 ∧ (X / W) ^ 2 + (Y / W) ^ 2 = r ^ 2 ∧
+    -- the span `j` containing `t`: Bernstein form over the original control points, read backwards
+    ∃ j, j < n ∧ s.mem (((n - j : ℕ) : K) / n * theta) (((n - j - 1 : ℕ) : K) / n * theta) t ∧
+      X = bern2 (arcX r cd sd (2 * (n - 1 - j))) (arcX r cd sd (2 * (n - 1 - j) + 1)) (arcX r cd sd (2 * (n - 1 - j) + 2))
+            (1 - (t - ((n - j : ℕ) : K) / n * theta) / (((n - j - 1 : ℕ) : K) / n * theta - ((n - j : ℕ) : K) / n * theta)) ∧
+      Y = bern2 (arcY r cd sd (2 * (n - 1 - j))) (arcY r cd sd (2 * (n - 1 - j) + 1)) (arcY r cd sd (2 * (n - 1 - j) + 2))
+            (1 - (t - ((n - j : ℕ) : K) / n * theta) / (((n - j - 1 : ℕ) : K) / n * theta - ((n - j : ℕ) : K) / n * theta)) := by
+  intro τ X Y W
+  have hτ := arcKnotRev_mono theta n hn hθ
+  have hn' : (0 : K) < n := by exact_mod_cast hn
+  have hk : ∀ c, splineVal s τ 2 (2 * n + 1) c t = splineVal s (arcKnotRev theta n) 2 (2 * n + 1) c t := fun c =>
+    splineVal_congr_knots s _ _ 2 (2 * n + 1) c t (fun k hk => kn_arc_rev theta n k (by omega))
+  have e0 : arcKnotRev theta n 2 = theta := by
+    have : min n ((2 * n + 3 - 2 - 1) / 2) = n := by omega
+    have hne : (n : K) ≠ 0 := ne_of_gt hn'
+    unfold arcKnotRev arcKnotFn; rw [this]; field_simp
+  have e1 : arcKnotRev theta n (2 * n + 2) = 0 := by
+    have : min n ((2 * n + 3 - (2 * n + 2) - 1) / 2) = 0 := by omega
+    unfold arcKnotRev arcKnotFn; rw [this]; simp
+  obtain ⟨μ, h1, h2, h3⟩ := exists_span s (arcKnotRev theta n) hτ 2 (2 * n + 2) t (by rw [e0, e1]; exact ht)
+  have hlt : arcKnotRev theta n μ < arcKnotRev theta n (μ + 1) := by
+    cases s
+    · exact lt_of_le_of_lt h3.1 h3.2
+    · exact lt_of_lt_of_le h3.1 h3.2
+  have heven : μ % 2 = 0 := by
+    by_contra hodd
+    have : min n ((2 * n + 3 - μ - 1) / 2) = min n ((2 * n + 3 - (μ + 1) - 1) / 2) := by
+      have : (2 * n + 3 - μ - 1) / 2 = (2 * n + 3 - (μ + 1) - 1) / 2 := by omega
+      rw [this]
+    unfold arcKnotRev arcKnotFn at hlt
+    rw [this] at hlt
+    exact lt_irrefl _ hlt
+  obtain ⟨j, rfl⟩ : ∃ j, μ = 2 * j + 2 := ⟨(μ - 2) / 2, by omega⟩
+  have hj : j < n := by omega
+  have kf : ∀ i m, min n ((2 * n + 3 - i - 1) / 2) = m → arcKnotRev theta n i = (m : K) / n * theta := by
+    intro i m h; unfold arcKnotRev arcKnotFn; rw [h]
+  have a1 := kf (2 * j + 1) (n - j) (by omega)
+  have a2 := kf (2 * j + 2) (n - j) (by omega)
+  have a3 := kf (2 * j + 3) (n - j - 1) (by omega)
+  have a4 := kf (2 * j + 4) (n - j - 1) (by omega)
+  have hmem : s.mem (((n - j : ℕ) : K) / n * theta) (((n - j - 1 : ℕ) : K) / n * theta) t := by
+    rw [← a2, ← a3]; exact h3
+  have hab : ((n - j : ℕ) : K) / n * theta < ((n - j - 1 : ℕ) : K) / n * theta := by
+    rw [← a2, ← a3]; exact hlt
+  set u := (t - ((n - j : ℕ) : K) / n * theta) / (((n - j - 1 : ℕ) : K) / n * theta - ((n - j : ℕ) : K) / n * theta) with hu
+  have hv : ∀ c, splineVal s (arcKnotRev theta n) 2 (2 * n + 1) c t = bern2 (c (2 * j)) (c (2 * j + 1)) (c (2 * j + 2)) u :=
+    fun c => splineVal_bezier2 s (arcKnotRev theta n) hτ (2 * j) (2 * n + 1) c _ _ t hab a1 a2 a3 a4 hmem (by omega)
+  obtain ⟨x0, y0, w0⟩ := netComp_arc_rev r cd sd n (2 * j) (by omega)
+  obtain ⟨x1, y1, w1⟩ := netComp_arc_rev r cd sd n (2 * j + 1) (by omega)
+  obtain ⟨x2, y2, w2⟩ := netComp_arc_rev r cd sd n (2 * j + 2) (by omega)
+  have i0 : 2 * n - 2 * j = 2 * (n - 1 - j) + 2 := by omega
+  have i1 : 2 * n - (2 * j + 1) = 2 * (n - 1 - j) + 1 := by omega
+  have i2 : 2 * n - (2 * j + 2) = 2 * (n - 1 - j) := by omega
+  rw [i0] at x0 y0 w0; rw [i1] at x1 y1 w1; rw [i2] at x2 y2 w2
+  have eX : X = bern2 (arcX r cd sd (2 * (n - 1 - j))) (arcX r cd sd (2 * (n - 1 - j) + 1)) (arcX r cd sd (2 * (n - 1 - j) + 2)) (1 - u) := by
+    show splineVal s τ 2 (2 * n + 1) _ t = _
+    rw [hk, hv, x0, x1, x2, bern2_rev]
+  have eY : Y = bern2 (arcY r cd sd (2 * (n - 1 - j))) (arcY r cd sd (2 * (n - 1 - j) + 1)) (arcY r cd sd (2 * (n - 1 - j) + 2)) (1 - u) := by
+    show splineVal s τ 2 (2 * n + 1) _ t = _
+    rw [hk, hv, y0, y1, y2, bern2_rev]
+  have eW : W = bern2 (arcW cd (2 * (n - 1 - j))) (arcW cd (2 * (n - 1 - j) + 1)) (arcW cd (2 * (n - 1 - j) + 2)) (1 - u) := by
+    show splineVal s τ 2 (2 * n + 1) _ t = _
+    rw [hk, hv, w0, w1, w2, bern2_rev]
+  have hcone : X ^ 2 + Y ^ 2 = r ^ 2 * W ^ 2 := by
+    rw [eX, eY, eW]; exact (C13_arc_on_circle r cd sd n hd).2.2.2.2.1 (n - 1 - j) (1 - u)
+  have hW : 0 < W := by
+    show 0 < splineVal s τ 2 (2 * n + 1) _ t
+    rw [hk]
+    apply splineVal_pos s (arcKnotRev theta n) hτ 2 (2 * j + 2) (2 * n + 1) _ t (by omega) (by omega) h3
+    intro i hi
+    rw [(netComp_arc_rev r cd sd n i hi).2.2]
+    unfold arcW; split <;> [exact hcd; exact one_pos]
+  refine ⟨hW, hcone, ?_, j, hj, hmem, eX, eY⟩
+  have hW0 : W ≠ 0 := ne_of_gt hW
+  field_simp
+  linear_combination hcone
+
+/-- `θ < 0`: parameter `0` (the end of the domain `[θ, 0]`) is the point `(r, 0)` on the positive x-axis. -/
+theorem C13_eval_arc_neg_start (r cd sd theta : K) (n : ℕ) (hn : 0 < n) (hθ : theta < 0)
+    (hd : cd ^ 2 + sd ^ 2 = 1) (hcd : 0 < cd) :
+    let τ := ({ order := 3, knots := (arcKnots theta n).reverse.toArray, periodic := -1 } : Basis K).kn
+    splineVal .left τ 2 (2 * n + 1) (netComp (arcNet r cd sd n).reverse 0) 0 = r ∧
+    splineVal .left τ 2 (2 * n + 1) (netComp (arcNet r cd sd n).reverse 1) 0 = 0 := by
+  intro τ
+  obtain ⟨_, _, _, j, hj, hmem, eX, eY⟩ :=
+    C13_eval_arc_neg r cd sd theta n hn hθ hd hcd .left 0 ⟨hθ, le_refl 0⟩
+  have hn' : (0 : K) < n := by exact_mod_cast hn
+  -- the span containing `0` from the left is the last one
+  have hjn : n - j - 1 = 0 := by
+    by_contra hne
+    have hpos : (0 : K) < ((n - j - 1 : ℕ) : K) := by exact_mod_cast Nat.pos_of_ne_zero hne
+    have : ((n - j - 1 : ℕ) : K) / n * theta < 0 := mul_neg_of_pos_of_neg (div_pos hpos hn') hθ
+    exact absurd hmem.2 (not_le.mpr this)
+  have hnj : n - j = 1 := by omega
+  have hnj' : n - 1 - j = 0 := by omega
+  rw [hjn, hnj, hnj'] at eX eY
+  have hne : (1 : K) / n * theta ≠ 0 := ne_of_lt (mul_neg_of_pos_of_neg (div_pos one_pos hn') hθ)
+  have hu : (1 : K) - (0 - ((1 : ℕ) : K) / n * theta) / (((0 : ℕ) : K) / n * theta - ((1 : ℕ) : K) / n * theta) = 0 := by
+    have e : ((0 : ℕ) : K) / n * theta - ((1 : ℕ) : K) / n * theta = 0 - ((1 : ℕ) : K) / n * theta := by simp
+    have hne' : (0 : K) - ((1 : ℕ) : K) / n * theta ≠ 0 := by simpa using hne
+    rw [e, div_self hne', sub_self]
+  rw [hu] at eX eY
+  constructor
+  · rw [eX]; simp [bern2, arcX, angleIter]
+  · rw [eY]; simp [bern2, arcY, angleIter]
 
 /-- **`circle(type='p2C0')`: every evaluated point is on the unit circle** (every `t ∈ [0, 2π)`
 resp. `(0, 2π]`; `w² = 1/2`, `w > 0`); `circle` then scales by `r` and places
@@ -1383,60 +1499,42 @@ theorem C13_eval_arc_evaluate [FloorRing K] (r cd sd theta : K) (n : ℕ) (hn : 
   rw [hq 0 (by omega), hq 1 (by omega), hsum 0 (by omega), hsum 1 (by omega), hsum 2 (by omega)]
   exact hcirc
 
-/-- **Three-point arc: the branch decision of the code (partial for the code as it is).**
-`threePointDataWith useDot tol x0 x1 x2` is what `circle_segment_from_three_points` computes before
-calling `circle_segment`; `useDot = false` is the code with the component-wise sign comparison
-`all(sign(i)==sign(j) or abs(i-j) < controlpoint_absolute_tolerance)` (`sameSigns`), `useDot = true`
-the scale-independent test `dot(w2, normal) >= 0` (`keepDot`, the proposed repair).  If it returns
-`d`: the centre is the circumcentre (`v0, v2 ⟂ w2`, `|v0| = |v2|`), and with
-`trip = (v0 × v2)·w2` (positive exactly when the short arc from `x0` to `x2` is the one through `x1`)
-* `useDot = true`:  `d.keep ↔ 0 ≤ trip`, unconditionally;
-* `useDot = false`: `d.keep ↔ 0 < trip` **provided some component of the travel normal `w2` has
-  magnitude at least `tol`** (`tol = 1e-8`: twice the triangle area for planar input).
-*Missing for the code as it is:* without the magnitude guard the statement is false — for tiny
-configurations (`|w2_i − normal_i| < tol` for every component) `sameSigns` is `true` whatever the
-orientation and the arc ends away from `x2` (defect class
-`three-point-arc-small-radius-absolute-tolerance`).  With `keepDot` no guard is needed.
-By `C13_three_points_end` either form of the decision yields the sign hypothesis of
-`C13_three_points_geometry`, part 2: the arc ends at `x2`. -/
-theorem C13_three_points_branch_partial (useDot : Bool) (tol a1 a2 a3 b1 b2 b3 c1 c2 c3 : K) (htol : 0 < tol)
-    (d : ThreePt K)
-    (hd : threePointDataWith useDot tol [a1, a2, a3] [b1, b2, b3] [c1, c2, c3] = .ok d) :
+/-- **Three-point arc: the branch decision of the code.**
+`threePointDataWith true tol x0 x1 x2` is what `circle_segment_from_three_points` computes before
+calling `circle_segment` (`true`: the branch test is `not (np.dot(w2, normal) < 0)`, `keepDot` — the code
+in the tree; the driver op `f_three_dot` runs `threePointsWith true`).  If it returns `d`:
+the centre is the circumcentre (`|v0| = |v2|`, `v0, v2 ⟂ w2`), and with `trip = (v0 × v2)·w2`
+(non-negative exactly when the short arc from `x0` to `x2` is the one through `x1`)
+`d.keep ↔ 0 ≤ trip` — unconditionally, at every scale.  By `C13_three_points_end` this yields the sign
+hypothesis of `C13_three_points_geometry`, part 2: the arc ends at `x2`.
+*Remark (the earlier form of the code):* for the component-wise comparison
+`all(sign(i)==sign(j) or abs(i-j) < tol)` (`threePointDataWith false`, `sameSigns`) the equivalence
+`keep ↔ 0 < trip` holds only if some component of `w2` has magnitude `≥ tol` (`sameSigns_cross_iff`,
+Lemmas/C13Three.lean); without that guard it is false — the small-radius defect repaired in /repo. -/
+theorem C13_three_points_branch (tol a1 a2 a3 b1 b2 b3 c1 c2 c3 : K) (d : ThreePt K)
+    (hd : threePointDataWith true tol [a1, a2, a3] [b1, b2, b3] [c1, c2, c3] = .ok d) :
     ∃ x y z w1 w2 w3 : K,
       d.center = [x, y, z] ∧ d.v0 = [a1 - x, a2 - y, a3 - z] ∧ d.v2 = [c1 - x, c2 - y, c3 - z] ∧
       d.w2 = [w1, w2, w3] ∧
-      -- circumcentre; `v0, v2 ⟂ w2`
       (a1 - x) ^ 2 + (a2 - y) ^ 2 + (a3 - z) ^ 2 = (c1 - x) ^ 2 + (c2 - y) ^ 2 + (c3 - z) ^ 2 ∧
       (a1 - x) * w1 + (a2 - y) * w2 + (a3 - z) * w3 = 0 ∧
       (c1 - x) * w1 + (c2 - y) * w2 + (c3 - z) * w3 = 0 ∧
-      -- the branch decision
-      (useDot = true → (d.keep = true ↔ 0 ≤ dot3 (cross3 d.v0 d.v2) d.w2)) ∧
-      (useDot = false → (tol ≤ |w1| ∨ tol ≤ |w2| ∨ tol ≤ |w3|) →
-        (d.keep = true ↔ 0 < dot3 (cross3 d.v0 d.v2) d.w2)) := by
+      (d.keep = true ↔ 0 ≤ dot3 (cross3 d.v0 d.v2) d.w2) := by
   obtain ⟨x, y, z, hc, e1, e2, e3, e4, e5⟩ :=
-    threePointDataWith_ok useDot tol a1 a2 a3 b1 b2 b3 c1 c2 c3 d hd
+    threePointDataWith_ok true tol a1 a2 a3 b1 b2 b3 c1 c2 c3 d hd
   obtain ⟨hcen, _, _, _⟩ := C13_three_points_geometry (K := K)
   obtain ⟨_, q2, q3⟩ := hcen a1 a2 a3 b1 b2 b3 c1 c2 c3 x y z hc
   simp only [cross3] at e4
   simp only [sub3, cross3, List.zipWith, dot3, List.sum_cons, List.sum_nil] at q3
   refine ⟨x, y, z, (a2 - c2) * (b3 - c3) - (a3 - c3) * (b2 - c2), (a3 - c3) * (b1 - c1) - (a1 - c1) * (b3 - c3),
-    (a1 - c1) * (b2 - c2) - (a2 - c2) * (b1 - c1), e1, e2, e3, e4, q2, ?_, ?_, ?_, ?_⟩
+    (a1 - c1) * (b2 - c2) - (a2 - c2) * (b1 - c1), e1, e2, e3, e4, q2, ?_, ?_, ?_⟩
   · linear_combination -q3
   · linear_combination -q3
-  · intro hu
-    rw [e5, hu]
+  · rw [e5]
     simp only [if_true]
     rw [keepDot_iff, e2, e3, e4]
     simp [dot3, cross3]
     constructor <;> intro h <;> linarith
-  · intro hu hg
-    rw [e5, hu]
-    simp only [Bool.false_eq_true, if_false]
-    rw [e2, e3, e4]
-    apply sameSigns_cross_iff tol _ _ _ _ _ _ _ _ _ htol _ _ hg
-    · linear_combination -q3
-    · linear_combination -q3
-
 
 /-- end point of the arc with the sign of `sin θ` chosen by the branch flag. -/
 theorem C13_three_points_end (a1 a2 a3 b1 b2 b3 n1 n2 n3 ρ2 L c σ : K) (keep : Bool)
@@ -1509,7 +1607,7 @@ theorem C13_place_eval (k : Consts K) (o0 : Fac.Obj K) (hdim : o0.dim = 2) (hrat
                 + ((localXVec [x, y, z] ⟨ct, st, cp, sp⟩).getD 1 0) ^ 2) :
     ∃ o : Fac.Obj K,
       place o0 [c1, c2, c3] [nx, ny, nz] [x, y, z] ⟨ct, st, cp, sp⟩ lam = .ok o ∧
-      o.bases = o0.bases ∧ o.rational = true ∧ o.dim = 3 ∧ o.cps.length = o0.cps.length ∧
+      o.bases = o0.bases ∧ o.rational = true ∧ o.dim = 3 ∧ o.cps.length = o0.cps.length ∧ All4 o.cps ∧
       ∀ (s : Side) (τ : ℕ → K) (q n : ℕ) (t : K),
         let X := splineVal s τ q n (netComp o0.cps 0) t
         let Y := splineVal s τ q n (netComp o0.cps 1) t
@@ -1529,13 +1627,19 @@ theorem C13_place_eval (k : Consts K) (o0 : Fac.Obj K) (hdim : o0.dim = 2) (hrat
         (∀ r1 r2 : K, (X / r1) ^ 2 + (Y / r2) ^ 2 = W ^ 2 → W ≠ 0 → r1 ≠ 0 → r2 ≠ 0 →
           (((xh / wh - c1) * ex.1 + (yh / wh - c2) * ex.2.1 + (zh / wh - c3) * ex.2.2) / r1) ^ 2
           + (((xh / wh - c1) * ey.1 + (yh / wh - c2) * ey.2.1 + (zh / wh - c3) * ey.2.2) / r2) ^ 2 = 1 ∧
-          (xh / wh - c1) * nx + (yh / wh - c2) * ny + (zh / wh - c3) * nz = 0) := by
+          (xh / wh - c1) * nx + (yh / wh - c2) * ny + (zh / wh - c3) * nz = 0) ∧
+        -- the evaluated homogeneous point itself, and what the two axes are
+        (xh = X * ex.1 + Y * ey.1 + c1 * W ∧ yh = X * ex.2.1 + Y * ey.2.1 + c2 * W ∧
+          zh = X * ex.2.2 + Y * ey.2.2 + c3 * W) ∧
+        ex = (x / lam, y / lam, z / lam) ∧
+        ey = ((ny / N) * (z / lam) - (nz / N) * (y / lam), (nz / N) * (x / lam) - (nx / N) * (z / lam),
+              (nx / N) * (y / lam) - (ny / N) * (x / lam)) := by
   obtain ⟨_, _, hplace⟩ := C13_model_nets k [c1, c2, c3] [nx, ny, nz] [x, y, z] ⟨ct, st, cp, sp⟩ lam
   obtain ⟨_, _, hunit⟩ := (C13_placement nx ny nz ρ N ct st cp sp hρ hNN hNpos hθ hθ1 hcp hsp).2.2 x y z lam horth hlam hl2
   have hpl := hplace o0 hdim hn hc rfl
   refine ⟨{ o0 with dim := 3, cps := o0.cps.map (placePt (rotateLocalXAxis [x, y, z] ⟨ct, st, cp, sp⟩ lam).1
       (rotateLocalXAxis [x, y, z] ⟨ct, st, cp, sp⟩ lam).2 ct st cp sp [c1, c2, c3]) },
-    by rw [hpl, hrat]; rfl, rfl, hrat, rfl, by simp, ?_⟩
+    by rw [hpl, hrat]; rfl, rfl, hrat, rfl, by simp, all4_map_placePt o0.cps h3 _ _ _ _ _ _ _ _ _, ?_⟩
   intro s τ q n t X Y W xh yh zh wh ca sa ex ey
   have hev := C13_eval_placed_curve o0.cps o0.cps.length (wrapW s τ q n o0.cps.length t) h3
     nx ny nz ρ N ct st cp sp ca sa c1 c2 c3 hρ hNN hNpos hθ hθ1 hcp hsp hunit
@@ -1548,8 +1652,19 @@ theorem C13_place_eval (k : Consts K) (o0 : Fac.Obj K) (hdim : o0.dim = 2) (hrat
     rw [hl] at this; exact this
   rw [← e 0, ← e 1, ← e 2, ← e 3, ← splineVal_netComp_eq_wS s τ q n o0.cps 0 t hm,
     ← splineVal_netComp_eq_wS s τ q n o0.cps 1 t hm, ← splineVal_netComp_eq_wS s τ q n o0.cps 2 t hm] at hev
-  obtain ⟨hw, _, _, _, _, hcirc, hell⟩ := hev
-  exact ⟨hw, hcirc, hell⟩
+  obtain ⟨hw, hx1, hx2, hx3, _, hcirc, hell⟩ := hev
+  refine ⟨hw, hcirc, hell, ⟨hx1, hx2, hx3⟩, ?_, ?_⟩
+  · obtain ⟨he, _, _⟩ := (C13_placement nx ny nz ρ N ct st cp sp hρ hNN hNpos hθ hθ1 hcp hsp).2.2 x y z lam horth hlam hl2
+    simp only [rotYPt_cons, rotZPt_cons, List.cons.injEq, and_true] at he
+    obtain ⟨a1, a2, a3⟩ := he
+    simp only [ex, Prod.mk.injEq]
+    refine ⟨by rw [← a1]; ring, by rw [← a2]; ring, by rw [← a3]; ring⟩
+  · have he := (C13_placed_points nx ny nz ρ N ct st cp sp ca sa c1 c2 c3 hρ hNN hNpos hθ hθ1 hcp hsp hunit).2.2.2.2
+      x y z lam horth hlam hl2
+    simp only [rotYPt_cons, rotZPt_cons, List.cons.injEq, and_true] at he
+    obtain ⟨a1, a2, a3⟩ := he
+    simp only [ey, Prod.mk.injEq]
+    refine ⟨by rw [← a1]; ring, by rw [← a2]; ring, by rw [← a3]; ring⟩
 
 /-- **`circle(r, center, normal, type, xaxis)` — the function the driver runs — at every parameter**
 (both parametrisation types; partial).  Under the relations of `C13_placement` for the supplied
@@ -1572,8 +1687,8 @@ theorem C13_factory_circle_p2C0_partial (k : Consts K) (r c1 c2 c3 nx ny nz x y 
                 + ((localXVec [x, y, z] ⟨ct, st, cp, sp⟩).getD 1 0) ^ 2) :
     ∃ o : Fac.Obj K,
       circle k r [c1, c2, c3] [nx, ny, nz] "p2C0" [x, y, z] ⟨ct, st, cp, sp⟩ lam = .ok o ∧
-      o.bases = [{ order := 3, knots := (circleKnotsP2 k.pi).toArray, periodic := 0 }] ∧ o.rational = true ∧ o.dim = 3 ∧ o.cps.length = 8 ∧
-      ∀ (s : Side) (t : K), s.mem 0 (2 * k.pi) t →
+      o.bases = [{ order := 3, knots := (circleKnotsP2 k.pi).toArray, periodic := 0 }] ∧ o.rational = true ∧ o.dim = 3 ∧ o.cps.length = 8 ∧ All4 o.cps ∧
+      (∀ (s : Side) (t : K), s.mem 0 (2 * k.pi) t →
         let τ := ({ order := 3, knots := (circleKnotsP2 k.pi).toArray, periodic := 0 } : Basis K).kn
         let xh := splineVal s τ 2 9 (netComp o.cps 0) t
         let yh := splineVal s τ 2 9 (netComp o.cps 1) t
@@ -1581,7 +1696,18 @@ theorem C13_factory_circle_p2C0_partial (k : Consts K) (r c1 c2 c3 nx ny nz x y 
         let wh := splineVal s τ 2 9 (netComp o.cps 3) t
         0 < wh ∧
         (xh / wh - c1) ^ 2 + (yh / wh - c2) ^ 2 + (zh / wh - c3) ^ 2 = r ^ 2 ∧
-        (xh / wh - c1) * nx + (yh / wh - c2) * ny + (zh / wh - c3) * nz = 0 := by
+        (xh / wh - c1) * nx + (yh / wh - c2) * ny + (zh / wh - c3) * nz = 0) ∧
+      -- quarter points (start point `j = 0`, orientation: `e_y' = n̂ × e_x'`)
+      (∀ j : ℕ, j < 4 →
+        let τ := ({ order := 3, knots := (circleKnotsP2 k.pi).toArray, periodic := 0 } : Basis K).kn
+        let xh := splineVal .right τ 2 9 (netComp o.cps 0) ((j : K) * (k.pi / 2))
+        let yh := splineVal .right τ 2 9 (netComp o.cps 1) ((j : K) * (k.pi / 2))
+        let zh := splineVal .right τ 2 9 (netComp o.cps 2) ((j : K) * (k.pi / 2))
+        let wh := splineVal .right τ 2 9 (netComp o.cps 3) ((j : K) * (k.pi / 2))
+        wh = 1 ∧
+        xh = c1 + r * ((quarterDir j).1 * (x / lam) + (quarterDir j).2 * ((ny / N) * (z / lam) - (nz / N) * (y / lam))) ∧
+        yh = c2 + r * ((quarterDir j).1 * (y / lam) + (quarterDir j).2 * ((nz / N) * (x / lam) - (nx / N) * (z / lam))) ∧
+        zh = c3 + r * ((quarterDir j).1 * (z / lam) + (quarterDir j).2 * ((nx / N) * (y / lam) - (ny / N) * (x / lam)))) := by
   have hmodel : circle k r [c1, c2, c3] [nx, ny, nz] "p2C0" [x, y, z] ⟨ct, st, cp, sp⟩ lam
       = place ((curveOf { order := 3, knots := (circleKnotsP2 k.pi).toArray, periodic := 0 } (circleNetP2 k.w) true 2).scale [r]) [c1, c2, c3] [nx, ny, nz] [x, y, z] ⟨ct, st, cp, sp⟩ lam := by
     simp [circle, unitCircle, not_le.mpr hr, bind, Except.bind, pure, Except.pure]
@@ -1589,14 +1715,35 @@ theorem C13_factory_circle_p2C0_partial (k : Consts K) (r c1 c2 c3 nx ny nz x y 
   have hlen : 0 < (circleNetP2 k.w).length := by simp [circleNetP2]
   have hcps : ((curveOf { order := 3, knots := (circleKnotsP2 k.pi).toArray, periodic := 0 } (circleNetP2 k.w) true 2).scale [r]).cps = (circleNetP2 k.w).map (scalePt 2 (r :: r :: [r])) := by
     simp [Fac.Obj.scale, Fac.Obj.mapPts, curveOf, Fac.Obj.padScale]
-  obtain ⟨o, ho, hb, hrat, hdim, hl, hev⟩ := C13_place_eval k ((curveOf { order := 3, knots := (circleKnotsP2 k.pi).toArray, periodic := 0 } (circleNetP2 k.w) true 2).scale [r]) rfl rfl
+  obtain ⟨o, ho, hb, hrat, hdim, hl, h4o, hev⟩ := C13_place_eval k ((curveOf { order := 3, knots := (circleKnotsP2 k.pi).toArray, periodic := 0 } (circleNetP2 k.w) true 2).scale [r]) rfl rfl
     (by rw [hcps]; simpa using hlen)
     (by rw [hcps]; simpa using (splineVal_scaled .right (fun _ => (0 : K)) 0 0 (circleNetP2 k.w) 0 r r [r] hlen h3).2.2.2)
     c1 c2 c3 nx ny nz x y z ρ N lam ct st cp sp hn hc hρ hNN hNpos hθ hθ1 hcp hsp horth hlam hl2
-  refine ⟨o, by rw [hmodel, ho], hb, hrat, hdim, by rw [hl, hcps]; simp [circleNetP2], ?_⟩
+  refine ⟨o, by rw [hmodel, ho], hb, hrat, hdim, by rw [hl, hcps]; simp [circleNetP2], h4o, ?_, ?_⟩
+  rotate_left
+  · intro j hj τ xh yh zh wh
+    obtain ⟨hw, _, _, ⟨hx1, hx2, hx3⟩, hex, hey⟩ := hev .right τ 2 9 ((j : K) * (k.pi / 2))
+    simp only [hcps] at hw hx1 hx2 hx3
+    obtain ⟨sx, sy, sw, _⟩ := splineVal_scaled .right τ 2 9 (circleNetP2 k.w) ((j : K) * (k.pi / 2)) r r [r] hlen h3
+    obtain ⟨q0, q1, q2⟩ := (circle_quarter_points k.pi hpi j hj).1 k.w
+    rw [sx, sy, sw, q0, q1, q2] at hx1 hx2 hx3
+    rw [sw, q2] at hw
+    simp only [Prod.mk.injEq] at hex hey
+    obtain ⟨ex1, ex2, ex3⟩ := hex
+    obtain ⟨ey1, ey2, ey3⟩ := hey
+    rw [ex1, ey1] at hx1
+    rw [ex2, ey2] at hx2
+    rw [ex3, ey3] at hx3
+    refine ⟨hw, ?_, ?_, ?_⟩
+    · have e : xh = _ := hx1
+      rw [e]; ring
+    · have e : yh = _ := hx2
+      rw [e]; ring
+    · have e : zh = _ := hx3
+      rw [e]; ring
   intro s t ht τ xh yh zh wh
   obtain ⟨hW, hcone, _⟩ := C13_eval_circle_p2C0 k.pi k.w hpi hw2 hw0 s t ht
-  obtain ⟨hw, hcirc, _⟩ := hev s τ 2 9 t
+  obtain ⟨hw, hcirc, _, _⟩ := hev s τ 2 9 t
   simp only [hcps] at hw hcirc
   obtain ⟨sx, sy, sw, _⟩ := splineVal_scaled s τ 2 9 (circleNetP2 k.w) t r r [r] hlen h3
   rw [sx, sy, sw] at hcirc
@@ -1620,7 +1767,7 @@ theorem C13_factory_circle_p4C1_partial (k : Consts K) (r c1 c2 c3 nx ny nz x y 
     ∃ o : Fac.Obj K,
       circle k r [c1, c2, c3] [nx, ny, nz] "p4C1" [x, y, z] ⟨ct, st, cp, sp⟩ lam = .ok o ∧
       o.bases = [{ order := 5, knots := (circleKnotsP4 k.pi).toArray, periodic := 1 }] ∧ o.rational = true ∧ o.dim = 3 ∧ o.cps.length = 12 ∧
-      ∀ (s : Side) (t : K), s.mem 0 (2 * k.pi) t →
+      (∀ (s : Side) (t : K), s.mem 0 (2 * k.pi) t →
         let τ := ({ order := 5, knots := (circleKnotsP4 k.pi).toArray, periodic := 1 } : Basis K).kn
         let xh := splineVal s τ 4 14 (netComp o.cps 0) t
         let yh := splineVal s τ 4 14 (netComp o.cps 1) t
@@ -1628,7 +1775,18 @@ theorem C13_factory_circle_p4C1_partial (k : Consts K) (r c1 c2 c3 nx ny nz x y 
         let wh := splineVal s τ 4 14 (netComp o.cps 3) t
         0 < wh ∧
         (xh / wh - c1) ^ 2 + (yh / wh - c2) ^ 2 + (zh / wh - c3) ^ 2 = r ^ 2 ∧
-        (xh / wh - c1) * nx + (yh / wh - c2) * ny + (zh / wh - c3) * nz = 0 := by
+        (xh / wh - c1) * nx + (yh / wh - c2) * ny + (zh / wh - c3) * nz = 0) ∧
+      -- quarter points (start point `j = 0`, orientation: `e_y' = n̂ × e_x'`)
+      (∀ j : ℕ, j < 4 →
+        let τ := ({ order := 5, knots := (circleKnotsP4 k.pi).toArray, periodic := 1 } : Basis K).kn
+        let xh := splineVal .right τ 4 14 (netComp o.cps 0) ((j : K) * (k.pi / 2))
+        let yh := splineVal .right τ 4 14 (netComp o.cps 1) ((j : K) * (k.pi / 2))
+        let zh := splineVal .right τ 4 14 (netComp o.cps 2) ((j : K) * (k.pi / 2))
+        let wh := splineVal .right τ 4 14 (netComp o.cps 3) ((j : K) * (k.pi / 2))
+        wh = 1 ∧
+        xh = c1 + r * ((quarterDir j).1 * (x / lam) + (quarterDir j).2 * ((ny / N) * (z / lam) - (nz / N) * (y / lam))) ∧
+        yh = c2 + r * ((quarterDir j).1 * (y / lam) + (quarterDir j).2 * ((nz / N) * (x / lam) - (nx / N) * (z / lam))) ∧
+        zh = c3 + r * ((quarterDir j).1 * (z / lam) + (quarterDir j).2 * ((nx / N) * (y / lam) - (ny / N) * (x / lam)))) := by
   have hmodel : circle k r [c1, c2, c3] [nx, ny, nz] "p4C1" [x, y, z] ⟨ct, st, cp, sp⟩ lam
       = place ((curveOf { order := 5, knots := (circleKnotsP4 k.pi).toArray, periodic := 1 } (circleNetP4 k.s2) true 2).scale [r]) [c1, c2, c3] [nx, ny, nz] [x, y, z] ⟨ct, st, cp, sp⟩ lam := by
     simp [circle, unitCircle, not_le.mpr hr, bind, Except.bind, pure, Except.pure]
@@ -1636,14 +1794,35 @@ theorem C13_factory_circle_p4C1_partial (k : Consts K) (r c1 c2 c3 nx ny nz x y 
   have hlen : 0 < (circleNetP4 k.s2).length := by simp [circleNetP4]
   have hcps : ((curveOf { order := 5, knots := (circleKnotsP4 k.pi).toArray, periodic := 1 } (circleNetP4 k.s2) true 2).scale [r]).cps = (circleNetP4 k.s2).map (scalePt 2 (r :: r :: [r])) := by
     simp [Fac.Obj.scale, Fac.Obj.mapPts, curveOf, Fac.Obj.padScale]
-  obtain ⟨o, ho, hb, hrat, hdim, hl, hev⟩ := C13_place_eval k ((curveOf { order := 5, knots := (circleKnotsP4 k.pi).toArray, periodic := 1 } (circleNetP4 k.s2) true 2).scale [r]) rfl rfl
+  obtain ⟨o, ho, hb, hrat, hdim, hl, h4o, hev⟩ := C13_place_eval k ((curveOf { order := 5, knots := (circleKnotsP4 k.pi).toArray, periodic := 1 } (circleNetP4 k.s2) true 2).scale [r]) rfl rfl
     (by rw [hcps]; simpa using hlen)
     (by rw [hcps]; simpa using (splineVal_scaled .right (fun _ => (0 : K)) 0 0 (circleNetP4 k.s2) 0 r r [r] hlen h3).2.2.2)
     c1 c2 c3 nx ny nz x y z ρ N lam ct st cp sp hn hc hρ hNN hNpos hθ hθ1 hcp hsp horth hlam hl2
-  refine ⟨o, by rw [hmodel, ho], hb, hrat, hdim, by rw [hl, hcps]; simp [circleNetP4], ?_⟩
+  refine ⟨o, by rw [hmodel, ho], hb, hrat, hdim, by rw [hl, hcps]; simp [circleNetP4], ?_, ?_⟩
+  rotate_left
+  · intro j hj τ xh yh zh wh
+    obtain ⟨hw, _, _, ⟨hx1, hx2, hx3⟩, hex, hey⟩ := hev .right τ 4 14 ((j : K) * (k.pi / 2))
+    simp only [hcps] at hw hx1 hx2 hx3
+    obtain ⟨sx, sy, sw, _⟩ := splineVal_scaled .right τ 4 14 (circleNetP4 k.s2) ((j : K) * (k.pi / 2)) r r [r] hlen h3
+    obtain ⟨q0, q1, q2⟩ := (circle_quarter_points k.pi hpi j hj).2 k.s2
+    rw [sx, sy, sw, q0, q1, q2] at hx1 hx2 hx3
+    rw [sw, q2] at hw
+    simp only [Prod.mk.injEq] at hex hey
+    obtain ⟨ex1, ex2, ex3⟩ := hex
+    obtain ⟨ey1, ey2, ey3⟩ := hey
+    rw [ex1, ey1] at hx1
+    rw [ex2, ey2] at hx2
+    rw [ex3, ey3] at hx3
+    refine ⟨hw, ?_, ?_, ?_⟩
+    · have e : xh = _ := hx1
+      rw [e]; ring
+    · have e : yh = _ := hx2
+      rw [e]; ring
+    · have e : zh = _ := hx3
+      rw [e]; ring
   intro s t ht τ xh yh zh wh
   obtain ⟨hW, hcone, _⟩ := C13_eval_circle_p4C1 k.pi k.s2 hpi h2 hs0 s t ht
-  obtain ⟨hw, hcirc, _⟩ := hev s τ 4 14 t
+  obtain ⟨hw, hcirc, _, _⟩ := hev s τ 4 14 t
   simp only [hcps] at hw hcirc
   obtain ⟨sx, sy, sw, _⟩ := splineVal_scaled s τ 4 14 (circleNetP4 k.s2) t r r [r] hlen h3
   rw [sx, sy, sw] at hcirc
@@ -1693,14 +1872,14 @@ theorem C13_factory_ellipse_p2C0_partial (k : Consts K) (r1 r2 c1 c2 c3 nx ny nz
   have hlen : 0 < (circleNetP2 k.w).length := by simp [circleNetP2]
   have hcps : ((curveOf { order := 3, knots := (circleKnotsP2 k.pi).toArray, periodic := 0 } (circleNetP2 k.w) true 2).scale [r1, r2, 1]).cps = (circleNetP2 k.w).map (scalePt 2 (r1 :: r2 :: [1])) := by
     simp [Fac.Obj.scale, Fac.Obj.mapPts, curveOf, Fac.Obj.padScale]
-  obtain ⟨o, ho, hb, hrat, hdim, hl, hev⟩ := C13_place_eval k ((curveOf { order := 3, knots := (circleKnotsP2 k.pi).toArray, periodic := 0 } (circleNetP2 k.w) true 2).scale [r1, r2, 1]) rfl rfl
+  obtain ⟨o, ho, hb, hrat, hdim, hl, h4o, hev⟩ := C13_place_eval k ((curveOf { order := 3, knots := (circleKnotsP2 k.pi).toArray, periodic := 0 } (circleNetP2 k.w) true 2).scale [r1, r2, 1]) rfl rfl
     (by rw [hcps]; simpa using hlen)
     (by rw [hcps]; simpa using (splineVal_scaled .right (fun _ => (0 : K)) 0 0 (circleNetP2 k.w) 0 r1 r2 [1] hlen h3).2.2.2)
     c1 c2 c3 nx ny nz x y z ρ N lam ct st cp sp hn hc hρ hNN hNpos hθ hθ1 hcp hsp horth hlam hl2
   refine ⟨o, by rw [hmodel, ho], hb, hrat, hdim, by rw [hl, hcps]; simp [circleNetP2], ?_⟩
   intro s t ht τ xh yh zh wh ca sa ex ey
   obtain ⟨hW, hcone, _⟩ := C13_eval_circle_p2C0 k.pi k.w hpi hw2 hw0 s t ht
-  obtain ⟨hw, _, hell⟩ := hev s τ 2 9 t
+  obtain ⟨hw, _, hell, _⟩ := hev s τ 2 9 t
   simp only [hcps] at hw hell
   obtain ⟨sx, sy, sw, _⟩ := splineVal_scaled s τ 2 9 (circleNetP2 k.w) t r1 r2 [1] hlen h3
   rw [sx, sy, sw] at hell
@@ -1746,14 +1925,14 @@ theorem C13_factory_ellipse_p4C1_partial (k : Consts K) (r1 r2 c1 c2 c3 nx ny nz
   have hlen : 0 < (circleNetP4 k.s2).length := by simp [circleNetP4]
   have hcps : ((curveOf { order := 5, knots := (circleKnotsP4 k.pi).toArray, periodic := 1 } (circleNetP4 k.s2) true 2).scale [r1, r2, 1]).cps = (circleNetP4 k.s2).map (scalePt 2 (r1 :: r2 :: [1])) := by
     simp [Fac.Obj.scale, Fac.Obj.mapPts, curveOf, Fac.Obj.padScale]
-  obtain ⟨o, ho, hb, hrat, hdim, hl, hev⟩ := C13_place_eval k ((curveOf { order := 5, knots := (circleKnotsP4 k.pi).toArray, periodic := 1 } (circleNetP4 k.s2) true 2).scale [r1, r2, 1]) rfl rfl
+  obtain ⟨o, ho, hb, hrat, hdim, hl, h4o, hev⟩ := C13_place_eval k ((curveOf { order := 5, knots := (circleKnotsP4 k.pi).toArray, periodic := 1 } (circleNetP4 k.s2) true 2).scale [r1, r2, 1]) rfl rfl
     (by rw [hcps]; simpa using hlen)
     (by rw [hcps]; simpa using (splineVal_scaled .right (fun _ => (0 : K)) 0 0 (circleNetP4 k.s2) 0 r1 r2 [1] hlen h3).2.2.2)
     c1 c2 c3 nx ny nz x y z ρ N lam ct st cp sp hn hc hρ hNN hNpos hθ hθ1 hcp hsp horth hlam hl2
   refine ⟨o, by rw [hmodel, ho], hb, hrat, hdim, by rw [hl, hcps]; simp [circleNetP4], ?_⟩
   intro s t ht τ xh yh zh wh ca sa ex ey
   obtain ⟨hW, hcone, _⟩ := C13_eval_circle_p4C1 k.pi k.s2 hpi h2 hs0 s t ht
-  obtain ⟨hw, _, hell⟩ := hev s τ 4 14 t
+  obtain ⟨hw, _, hell, _⟩ := hev s τ 4 14 t
   simp only [hcps] at hw hell
   obtain ⟨sx, sy, sw, _⟩ := splineVal_scaled s τ 4 14 (circleNetP4 k.s2) t r1 r2 [1] hlen h3
   rw [sx, sy, sw] at hell
@@ -1802,15 +1981,247 @@ theorem C13_factory_circle_segment_partial (k : Consts K) (r theta c1 c2 c3 nx n
     rfl
   have h3 := is3_arcNet r arc.cd arc.sd arc.spans
   have hlen : 0 < (arcNet r arc.cd arc.sd arc.spans).length := by rw [arcNet_length]; omega
-  obtain ⟨o, ho, hb, hrat, hdim, hl, hev⟩ := C13_place_eval k (arcCurve r arc.cd arc.sd theta arc.spans) rfl rfl
+  obtain ⟨o, ho, hb, hrat, hdim, hl, h4o, hev⟩ := C13_place_eval k (arcCurve r arc.cd arc.sd theta arc.spans) rfl rfl
     hlen h3 c1 c2 c3 nx ny nz x y z ρ N lam ct st cp sp hn hc hρ hNN hNpos hθ hθ1 hcp hsp horth hlam hl2
   refine ⟨o, by rw [hmodel, ho], ho, hb, hrat, hdim, by rw [hl]; exact arcNet_length _ _ _ _, ?_⟩
   intro s t ht τ xh yh zh wh
   obtain ⟨hW, hcone, _⟩ := C13_eval_arc r arc.cd arc.sd theta arc.spans hn0 hθ0 hd hcd s t ht
-  obtain ⟨hw, hcirc, _⟩ := hev s τ 2 (2 * arc.spans + 1) t
+  obtain ⟨hw, hcirc, _, _⟩ := hev s τ 2 (2 * arc.spans + 1) t
   have hwpos : 0 < wh := by
     have : wh = _ := hw
     rw [this]; exact hW
   obtain ⟨q1, q2⟩ := hcirc r hcone (ne_of_gt hW)
   exact ⟨hwpos, q1, q2⟩
 
+/-- **`circle_segment(θ, …)` with `−2π ≤ θ < 0` at every parameter** (partial, same placement guards as
+for `circle`).  The model function returns the placed curve with the reversed net and flipped knots
+(domain `[θ, 0]`); every evaluated point of the result lies on the circle of radius `r` about the
+centre in the plane ⟂ n.  (`C13_eval_arc_neg`: at the knots `t_k = kθ/n` the unplaced point is at
+angle `t_k`, so the arc extends clockwise from the x-axis, and parameter `0` is on it:
+`C13_eval_arc_neg_start`.) -/
+theorem C13_factory_circle_segment_neg_partial (k : Consts K) (r theta c1 c2 c3 nx ny nz x y z ρ N lam ct st cp sp : K)
+    (hpi : 0 < k.pi) (arc : ArcAux K) (hn0 : 0 < arc.spans) (hθ0 : theta < 0) (hθ2 : -(2 * k.pi) ≤ theta)
+    (hd : arc.cd ^ 2 + arc.sd ^ 2 = 1) (hcd : 0 < arc.cd) (hr : 0 < r)
+    (hn : allcloseEz [nx, ny, nz] = false) (hc : allcloseZero [c1, c2, c3] = false)
+    (hρ : ρ ^ 2 = nx ^ 2 + ny ^ 2) (hNN : N ^ 2 = ρ ^ 2 + nz ^ 2) (hNpos : 0 < N)
+    (hθ : ρ ≠ 0 → ct * ρ = nx ∧ st * ρ = ny) (hθ1 : ct ^ 2 + st ^ 2 = 1)
+    (hcp : cp * N = nz) (hsp : sp * N = ρ)
+    (horth : x * nx + y * ny + z * nz = 0) (hlam : 0 < lam)
+    (hl2 : lam ^ 2 = ((localXVec [x, y, z] ⟨ct, st, cp, sp⟩).getD 0 0) ^ 2
+                + ((localXVec [x, y, z] ⟨ct, st, cp, sp⟩).getD 1 0) ^ 2) :
+    ∃ o : Fac.Obj K,
+      circleSegment k theta r [c1, c2, c3] [nx, ny, nz] [x, y, z] arc ⟨ct, st, cp, sp⟩ lam = .ok o ∧
+      o.bases = [{ order := 3, knots := (arcKnots theta arc.spans).reverse.toArray, periodic := -1 }] ∧
+      o.rational = true ∧ o.dim = 3 ∧ o.cps.length = 2 * arc.spans + 1 ∧
+      ∀ (s : Side) (t : K), s.mem theta 0 t →
+        let τ := ({ order := 3, knots := (arcKnots theta arc.spans).reverse.toArray, periodic := -1 } : Basis K).kn
+        let xh := splineVal s τ 2 (2 * arc.spans + 1) (netComp o.cps 0) t
+        let yh := splineVal s τ 2 (2 * arc.spans + 1) (netComp o.cps 1) t
+        let zh := splineVal s τ 2 (2 * arc.spans + 1) (netComp o.cps 2) t
+        let wh := splineVal s τ 2 (2 * arc.spans + 1) (netComp o.cps 3) t
+        0 < wh ∧
+        (xh / wh - c1) ^ 2 + (yh / wh - c2) ^ 2 + (zh / wh - c3) ^ 2 = r ^ 2 ∧
+        (xh / wh - c1) * nx + (yh / wh - c2) * ny + (zh / wh - c3) * nz = 0 := by
+  obtain ⟨harc, _, _⟩ := C13_model_nets k [c1, c2, c3] [nx, ny, nz] [x, y, z] ⟨ct, st, cp, sp⟩ lam
+  have habs : |theta| ≤ 2 * k.pi := by rw [abs_of_neg hθ0]; linarith
+  have hne : theta ≠ 2 * k.pi := by intro h; linarith
+  have hmodel := harc theta r arc habs hne hr (by omega)
+  rw [if_pos hθ0] at hmodel
+  have h3 := is3_arcNet_rev r arc.cd arc.sd arc.spans
+  have hlen : 0 < (arcNet r arc.cd arc.sd arc.spans).reverse.length := by
+    rw [List.length_reverse, arcNet_length]; omega
+  obtain ⟨o, ho, hb, hrat, hdim, hl, h4o, hev⟩ := C13_place_eval k
+    (curveOf { order := 3, knots := (arcKnots theta arc.spans).reverse.toArray, periodic := -1 }
+      (arcNet r arc.cd arc.sd arc.spans).reverse true 2) rfl rfl hlen h3
+    c1 c2 c3 nx ny nz x y z ρ N lam ct st cp sp hn hc hρ hNN hNpos hθ hθ1 hcp hsp horth hlam hl2
+  refine ⟨o, by rw [hmodel, ho], hb, hrat, hdim, by rw [hl]; simp [curveOf, arcNet_length], ?_⟩
+  intro s t ht τ xh yh zh wh
+  obtain ⟨hW, hcone, _, _⟩ := C13_eval_arc_neg r arc.cd arc.sd theta arc.spans hn0 hθ0 hd hcd s t ht
+  obtain ⟨hw, hcirc, _, _⟩ := hev s τ 2 (2 * arc.spans + 1) t
+  have hwpos : 0 < wh := by
+    have : wh = _ := hw
+    rw [this]; exact hW
+  obtain ⟨q1, q2⟩ := hcirc r hcone (ne_of_gt hW)
+  exact ⟨hwpos, q1, q2⟩
+
+/-- **`circle_segment(2π, …)`** is `circle(r, center, normal, xaxis=xaxis)` (`circleSegment_two_pi`): the full
+periodic circle starting on the requested x-axis; same conclusions as `C13_factory_circle_p2C0_partial`.
+(`θ = −2π` is covered by `C13_factory_circle_segment_neg_partial`: three reversed spans.) -/
+theorem C13_factory_circle_segment_two_pi_partial (k : Consts K) (arc : ArcAux K) (r c1 c2 c3 nx ny nz x y z ρ N lam ct st cp sp : K)
+    (hpi : 0 < k.pi) (hw2 : k.w ^ 2 = 1 / 2) (hw0 : 0 < k.w) (hr : 0 < r)
+    (hn : allcloseEz [nx, ny, nz] = false) (hc : allcloseZero [c1, c2, c3] = false)
+    (hρ : ρ ^ 2 = nx ^ 2 + ny ^ 2) (hNN : N ^ 2 = ρ ^ 2 + nz ^ 2) (hNpos : 0 < N)
+    (hθ : ρ ≠ 0 → ct * ρ = nx ∧ st * ρ = ny) (hθ1 : ct ^ 2 + st ^ 2 = 1)
+    (hcp : cp * N = nz) (hsp : sp * N = ρ)
+    (horth : x * nx + y * ny + z * nz = 0) (hlam : 0 < lam)
+    (hl2 : lam ^ 2 = ((localXVec [x, y, z] ⟨ct, st, cp, sp⟩).getD 0 0) ^ 2
+                + ((localXVec [x, y, z] ⟨ct, st, cp, sp⟩).getD 1 0) ^ 2) :
+    ∃ o : Fac.Obj K,
+      circleSegment k (2 * k.pi) r [c1, c2, c3] [nx, ny, nz] [x, y, z] arc ⟨ct, st, cp, sp⟩ lam = .ok o ∧
+      o.bases = [{ order := 3, knots := (circleKnotsP2 k.pi).toArray, periodic := 0 }] ∧ o.rational = true ∧ o.dim = 3 ∧ o.cps.length = 8 ∧ All4 o.cps ∧
+      (∀ (s : Side) (t : K), s.mem 0 (2 * k.pi) t →
+        let τ := ({ order := 3, knots := (circleKnotsP2 k.pi).toArray, periodic := 0 } : Basis K).kn
+        let xh := splineVal s τ 2 9 (netComp o.cps 0) t
+        let yh := splineVal s τ 2 9 (netComp o.cps 1) t
+        let zh := splineVal s τ 2 9 (netComp o.cps 2) t
+        let wh := splineVal s τ 2 9 (netComp o.cps 3) t
+        0 < wh ∧
+        (xh / wh - c1) ^ 2 + (yh / wh - c2) ^ 2 + (zh / wh - c3) ^ 2 = r ^ 2 ∧
+        (xh / wh - c1) * nx + (yh / wh - c2) * ny + (zh / wh - c3) * nz = 0) ∧
+      -- quarter points (start point `j = 0`, orientation: `e_y' = n̂ × e_x'`)
+      (∀ j : ℕ, j < 4 →
+        let τ := ({ order := 3, knots := (circleKnotsP2 k.pi).toArray, periodic := 0 } : Basis K).kn
+        let xh := splineVal .right τ 2 9 (netComp o.cps 0) ((j : K) * (k.pi / 2))
+        let yh := splineVal .right τ 2 9 (netComp o.cps 1) ((j : K) * (k.pi / 2))
+        let zh := splineVal .right τ 2 9 (netComp o.cps 2) ((j : K) * (k.pi / 2))
+        let wh := splineVal .right τ 2 9 (netComp o.cps 3) ((j : K) * (k.pi / 2))
+        wh = 1 ∧
+        xh = c1 + r * ((quarterDir j).1 * (x / lam) + (quarterDir j).2 * ((ny / N) * (z / lam) - (nz / N) * (y / lam))) ∧
+        yh = c2 + r * ((quarterDir j).1 * (y / lam) + (quarterDir j).2 * ((nz / N) * (x / lam) - (nx / N) * (z / lam))) ∧
+        zh = c3 + r * ((quarterDir j).1 * (z / lam) + (quarterDir j).2 * ((nx / N) * (y / lam) - (ny / N) * (x / lam)))) := by
+  obtain ⟨o, ho, rest⟩ := C13_factory_circle_p2C0_partial k r c1 c2 c3 nx ny nz x y z ρ N lam ct st cp sp
+    hpi hw2 hw0 hr hn hc hρ hNN hNpos hθ hθ1 hcp hsp horth hlam hl2
+  exact ⟨o, by rw [circleSegment_two_pi k r _ _ _ arc _ lam (le_of_lt hpi) hr]; exact ho, rest⟩
+
+omit [IsStrictOrderedRing K] in
+/-- **`surface_factory.cylinder` — model equality.**  `cylinder` is `extrude` of the placed circle. -/
+theorem C13_factory_cylinder_model (k : Consts K) (r a b c : K) (center axis xaxis : List K) (aux : NAux K) (lam : K)
+    (oc : Fac.Obj K) (hc : circle k r center axis "p2C0" xaxis aux lam = .ok oc)
+    (hdim : oc.dim = 3) (h4 : All4 oc.cps) :
+    cylinder k r [a, b, c] center axis xaxis aux lam = .ok
+      { bases := oc.bases ++ [defaultBasis 2], shape := oc.shape ++ [2],
+        cps := stackLast [oc.cps, oc.cps.map (translatePt oc.rational 3 [a, b, c])],
+        rational := oc.rational, dim := 3 } := by
+  have hext := (C13_extrude_section oc a b c).1
+  have hs : (oc.setDimension 3).cps = oc.cps := by
+    simp only [Fac.Obj.setDimension, hdim]; exact map_setDim33 oc.cps h4
+  rw [hs] at hext
+  simp [cylinder, hc, bind, Except.bind, hext]
+
+/-- **`surface_factory.cylinder(r, h, center, axis, xaxis)` at every parameter** (partial: placement guards
+of `circle`).  `hAxis = h·axis/‖axis‖ = (a, b, c)` is the extrusion vector the code computes; for it parallel
+to the axis `n` the last equation is the height `v·h` along the axis.  The model function returns the extruded placed circle `o`; for every `u` of
+the circle's domain and every `v ∈ [0, 1]` the evaluated point
+`p = Σ_i Σ_j B_i(u)·L_j(v)·cp[i,j] / (weight)` satisfies `‖p − (c + v·hAxis)‖² = r²` and
+`(p − (c + v·hAxis))·n = 0`: it is at distance `r` from the axis, at height `v·h`. -/
+theorem C13_factory_cylinder_partial (k : Consts K) (r a b c c1 c2 c3 nx ny nz x y z ρ N lam ct st cp sp : K)
+    (hpi : 0 < k.pi) (hw2 : k.w ^ 2 = 1 / 2) (hw0 : 0 < k.w) (hr : 0 < r)
+    (hn : allcloseEz [nx, ny, nz] = false) (hc : allcloseZero [c1, c2, c3] = false)
+    (hρ : ρ ^ 2 = nx ^ 2 + ny ^ 2) (hNN : N ^ 2 = ρ ^ 2 + nz ^ 2) (hNpos : 0 < N)
+    (hθ : ρ ≠ 0 → ct * ρ = nx ∧ st * ρ = ny) (hθ1 : ct ^ 2 + st ^ 2 = 1)
+    (hcp : cp * N = nz) (hsp : sp * N = ρ)
+    (horth : x * nx + y * ny + z * nz = 0) (hlam : 0 < lam)
+    (hl2 : lam ^ 2 = ((localXVec [x, y, z] ⟨ct, st, cp, sp⟩).getD 0 0) ^ 2
+                + ((localXVec [x, y, z] ⟨ct, st, cp, sp⟩).getD 1 0) ^ 2) :
+    ∃ o : Fac.Obj K,
+      cylinder k r [a, b, c] [c1, c2, c3] [nx, ny, nz] [x, y, z] ⟨ct, st, cp, sp⟩ lam = .ok o ∧
+      o.bases = [{ order := 3, knots := (circleKnotsP2 k.pi).toArray, periodic := 0 }, defaultBasis 2] ∧
+      o.rational = true ∧ o.dim = 3 ∧
+      ∀ (s : Side) (u v : K), s.mem 0 (2 * k.pi) u →
+        let τ := ({ order := 3, knots := (circleKnotsP2 k.pi).toArray, periodic := 0 } : Basis K).kn
+        let β := wrapW s τ 2 9 8 u
+        let γ : ℕ → K := fun j => if j = 0 then 1 - v else v
+        let xh := wS2 8 2 β γ (fun i j => comp o.cps 0 (i * 2 + j))
+        let yh := wS2 8 2 β γ (fun i j => comp o.cps 1 (i * 2 + j))
+        let zh := wS2 8 2 β γ (fun i j => comp o.cps 2 (i * 2 + j))
+        let wh := wS2 8 2 β γ (fun i j => comp o.cps 3 (i * 2 + j))
+        0 < wh ∧
+        (xh / wh - (c1 + v * a)) ^ 2 + (yh / wh - (c2 + v * b)) ^ 2 + (zh / wh - (c3 + v * c)) ^ 2 = r ^ 2 ∧
+        (xh / wh - (c1 + v * a)) * nx + (yh / wh - (c2 + v * b)) * ny + (zh / wh - (c3 + v * c)) * nz = 0 ∧
+        (xh / wh - c1) * nx + (yh / wh - c2) * ny + (zh / wh - c3) * nz = v * (a * nx + b * ny + c * nz) := by
+  obtain ⟨oc, hoc, hb, hrat, hdim, hl, h4, hev, _⟩ := C13_factory_circle_p2C0_partial k r c1 c2 c3 nx ny nz x y z ρ N lam
+    ct st cp sp hpi hw2 hw0 hr hn hc hρ hNN hNpos hθ hθ1 hcp hsp horth hlam hl2
+  have heq := C13_factory_cylinder_model k r a b c [c1, c2, c3] [nx, ny, nz] [x, y, z] ⟨ct, st, cp, sp⟩ lam oc hoc hdim h4
+  rw [hrat] at heq
+  refine ⟨_, heq, by simp [hb], rfl, rfl, ?_⟩
+  intro s u v hu
+  obtain ⟨hW, hcirc, hplane⟩ := hev s u hu
+  dsimp only at hW hcirc hplane ⊢
+  set τ := ({ order := 3, knots := (circleKnotsP2 k.pi).toArray, periodic := 0 } : Basis K).kn with hτ
+  set β := wrapW s τ 2 9 8 u with hβ
+  set γ : ℕ → K := fun j => if j = 0 then 1 - v else v with hγ
+  have hIs4 : Is4 oc.cps 8 := by
+    intro j hj
+    have hj' : j < oc.cps.length := by rw [hl]; exact hj
+    rw [List.getD_eq_getElem _ _ hj']
+    exact h4 _ (List.getElem_mem hj')
+  obtain ⟨e, e3⟩ := wS2_extrude_rational oc.cps 8 β γ a b c hl hIs4
+  have g0 : γ 0 = 1 - v := by simp [hγ]
+  have g1 : γ 1 = v := by simp [hγ]
+  have hlen8 : 0 < oc.cps.length := by rw [hl]; norm_num
+  have hs : ∀ cc, splineVal s τ 2 9 (netComp oc.cps cc) u = wS 8 β (comp oc.cps cc) := by
+    intro cc
+    have := splineVal_netComp_eq_wS s τ 2 9 oc.cps cc u hlen8
+    rw [hl] at this; exact this
+  simp only [hs] at hW hcirc hplane
+  set X := wS 8 β (comp oc.cps 0) with hX
+  set Y := wS 8 β (comp oc.cps 1) with hY
+  set Z := wS 8 β (comp oc.cps 2) with hZ
+  set H := wS 8 β (comp oc.cps 3) with hH
+  have ex : wS2 8 2 β γ (fun k j => comp (stackLast [oc.cps, oc.cps.map (translatePt true 3 [a, b, c])]) 0 (k * 2 + j)) = X + v * a * H := by
+    have := e 0 (by omega); simp only [List.getD_cons_zero] at this
+    rw [this, g0, g1]; ring
+  have ey : wS2 8 2 β γ (fun k j => comp (stackLast [oc.cps, oc.cps.map (translatePt true 3 [a, b, c])]) 1 (k * 2 + j)) = Y + v * b * H := by
+    have := e 1 (by omega); simp only [List.getD_cons_succ, List.getD_cons_zero] at this
+    rw [this, g0, g1]; ring
+  have ez : wS2 8 2 β γ (fun k j => comp (stackLast [oc.cps, oc.cps.map (translatePt true 3 [a, b, c])]) 2 (k * 2 + j)) = Z + v * c * H := by
+    have := e 2 (by omega); simp only [List.getD_cons_succ, List.getD_cons_zero] at this
+    rw [this, g0, g1]; ring
+  have ew : wS2 8 2 β γ (fun k j => comp (stackLast [oc.cps, oc.cps.map (translatePt true 3 [a, b, c])]) 3 (k * 2 + j)) = H := by
+    rw [e3, g0, g1]; ring
+  have hH0 : H ≠ 0 := ne_of_gt hW
+  rw [ex, ey, ez, ew]
+  have px : (X + v * a * H) / H - (c1 + v * a) = X / H - c1 := by field_simp; ring
+  have py : (Y + v * b * H) / H - (c2 + v * b) = Y / H - c2 := by field_simp; ring
+  have pz : (Z + v * c * H) / H - (c3 + v * c) = Z / H - c3 := by field_simp; ring
+  refine ⟨hW, by rw [px, py, pz]; exact hcirc, by rw [px, py, pz]; exact hplane, ?_⟩
+  have qx : (X + v * a * H) / H - c1 = (X / H - c1) + v * a := by field_simp; ring
+  have qy : (Y + v * b * H) / H - c2 = (Y / H - c2) + v * b := by field_simp; ring
+  have qz : (Z + v * c * H) / H - c3 = (Z / H - c3) + v * c := by field_simp; ring
+  rw [qx, qy, qz]
+  linear_combination hplane
+
+/-- **`n_gon(n, r, center, normal)` — the function the driver runs** (partial: placement guards).
+`cs` are the supplied `(cos(i·dt), sin(i·dt))`, `i < n`.  The model function returns a linear
+(order 2), periodic, non-rational 3D curve whose `i`-th control point (= vertex, the curve is
+piecewise linear) is at distance `r` from the centre in the plane through the centre orthogonal to
+`n`, for every `i` with `c_i² + s_i² = 1`. -/
+theorem C13_factory_nGon_partial (n : ℕ) (r c1 c2 c3 nx ny nz ρ N ct st cp sp : K) (cs : List (K × K))
+    (hr : 0 < r) (hn3 : 3 ≤ n)
+    (hn : allcloseEz [nx, ny, nz] = false) (hc : allcloseZero [c1, c2, c3] = false)
+    (hρ : ρ ^ 2 = nx ^ 2 + ny ^ 2) (hNN : N ^ 2 = ρ ^ 2 + nz ^ 2) (hNpos : 0 < N)
+    (hθ : ρ ≠ 0 → ct * ρ = nx ∧ st * ρ = ny) (hθ1 : ct ^ 2 + st ^ 2 = 1)
+    (hcp : cp * N = nz) (hsp : sp * N = ρ) :
+    ∃ o : Fac.Obj K,
+      nGon n r [c1, c2, c3] [nx, ny, nz] cs ⟨ct, st, cp, sp⟩ = .ok o ∧
+      o.bases.map (·.order) = [2] ∧ o.bases.map (·.periodic) = [0] ∧ o.rational = false ∧ o.dim = 3 ∧
+      o.cps = (cs.take n).map (fun p =>
+        translatePt false 3 [c1, c2, c3] (rotZPt ct st (rotYPt cp sp (setDimPt 2 3 [r * p.1, r * p.2])))) ∧
+      ∀ p ∈ cs.take n, p.1 ^ 2 + p.2 ^ 2 = 1 →
+        ∃ x y z : K,
+          translatePt false 3 [c1, c2, c3] (rotZPt ct st (rotYPt cp sp (setDimPt 2 3 [r * p.1, r * p.2]))) = [x, y, z] ∧
+          (x - c1) ^ 2 + (y - c2) ^ 2 + (z - c3) ^ 2 = r ^ 2 ∧
+          (x - c1) * nx + (y - c2) * ny + (z - c3) * nz = 0 := by
+  obtain ⟨_, hrot, _⟩ := C13_placement nx ny nz ρ N ct st cp sp hρ hNN hNpos hθ hθ1 hcp hsp
+  refine ⟨{ bases := [{ order := 2, knots := ([-1] ++ (List.range n).map (fun i => (i : K)) ++ [(n : K), (n : K) + 1]).toArray,
+                        periodic := 0 }],
+            shape := [((cs.take n).map (fun p => [r * p.1, r * p.2])).length],
+            cps := (cs.take n).map (fun p =>
+              translatePt false 3 [c1, c2, c3] (rotZPt ct st (rotYPt cp sp (setDimPt 2 3 [r * p.1, r * p.2])))),
+            rational := false, dim := 3 }, ?_, rfl, rfl, rfl, rfl, rfl, ?_⟩
+  rotate_left
+  · intro p _ hp1
+    obtain ⟨x', y', z', he, hnorm, hplane⟩ := hrot (r * p.1) (r * p.2) 0
+    refine ⟨x' + c1, y' + c2, z' + c3, ?_, ?_, ?_⟩
+    · simp only [setDimPt]
+      simp only [rotYPt_cons, rotZPt_cons, List.cons.injEq, and_true] at he
+      obtain ⟨e1, e2, e3⟩ := he
+      simp [translatePt, weightOf]
+      refine ⟨by rw [← e1]; ring, by rw [← e2]; ring, by rw [← e3]; ring⟩
+    · have : (x' + c1 - c1) ^ 2 + (y' + c2 - c2) ^ 2 + (z' + c3 - c3) ^ 2 = x' ^ 2 + y' ^ 2 + z' ^ 2 := by ring
+      rw [this, hnorm]; linear_combination r ^ 2 * hp1
+    · have : (x' + c1 - c1) * nx + (y' + c2 - c2) * ny + (z' + c3 - c3) * nz = x' * nx + y' * ny + z' * nz := by ring
+      rw [this, hplane]; ring
+  · simp [nGon, not_le.mpr hr, show ¬ n < 3 by omega, flipAndMove, hn, hc, Fac.Obj.rotateY, Fac.Obj.rotateZ,
+      Fac.Obj.translate, Fac.Obj.setDimension, Fac.Obj.mapPts, curveOf, bind, Except.bind, pure, Except.pure,
+      List.map_map, Function.comp_def]
